@@ -89,7 +89,7 @@ var (
 	originsPSLNested = [][]string{{"https://*.amazonaws.com", "https://*.s3.amazonaws.com"}, {"https://*.kobe.jp", "https://*.foo.kobe.jp"},
 		{"https://*.fastly.net.:*", "https://*.global.ssl.fastly.net.:8443"}, {"https://*.s3.amazonaws.com", "https://*.amazonaws.com"},
 		{"https://example.com", "https://*.amazonaws.com:*", "https://*.s3.amazonaws.com:8443"}}
-	methodsUnicodeFold  = []string{"po\u017Ft", "PO\u017FT", "ge\u0165", "dele\u0167e", "TRAC\u212A", "put\u017F", "\u212AILL", "PATC\u0127"}
+	methodsUnicodeFold = []string{"po\u017Ft", "PO\u017FT", "ge\u0165", "dele\u0167e", "TRAC\u212A", "put\u017F", "\u212AILL", "PATC\u0127"}
 )
 
 // ---------- hosts ----------
@@ -183,38 +183,38 @@ func genInsecureOrigin(r R) string {
 
 // extra request headers a browser or an intermediary may attach; the middleware's behaviour must not depend on them
 var extraReqHeaders = map[string][]string{
-	"Sec-Fetch-Site":            {"same-origin", "cross-site", "same-site", "none"},
-	"Sec-Fetch-Mode":            {"cors", "no-cors", "navigate", "same-origin", "websocket"},
-	"Sec-Fetch-Dest":            {"empty", "document", "script"},
-	"Sec-Fetch-User":            {"?1"},
-	"Sec-Purpose":               {"prefetch"},
-	"Sec-Gpc":                   {"1"},
-	"Cookie":                    {"sid=42", ""},
-	"Authorization":             {"Bearer x", "Basic dTpw"},
-	"Proxy-Authorization":       {"Basic dTpw"},
-	"Referer":                   {"https://example.com/", "https://attacker.example/"},
-	"Host":                      {"example.com", "localhost:8080"},
-	"X-Forwarded-Host":          {"example.com"},
-	"X-Forwarded-Proto":         {"https", "http"},
-	"X-Forwarded-For":           {"127.0.0.1", "10.0.0.1"},
-	"Forwarded":                 {"for=127.0.0.1;proto=https"},
-	"Via":                       {"1.1 proxy"},
-	"Connection":                {"keep-alive", "close", "Upgrade"},
-	"Upgrade":                   {"websocket"},
-	"Upgrade-Insecure-Requests": {"1"},
-	"Content-Length":            {"0", "17"},
-	"Content-Type":              {"application/json", "text/plain"},
-	"Accept":                    {"*/*"},
-	"Accept-Encoding":           {"gzip"},
-	"Cache-Control":             {"no-cache", "max-age=0"},
-	"Pragma":                    {"no-cache"},
-	"If-None-Match":             {"\"abc\""},
-	"User-Agent":                {"Mozilla/5.0", "curl/8"},
-	"Dnt":                       {"1"},
-	"Te":                        {"trailers"},
-	"Priority":                  {"u=1, i"},
-	"X-Requested-With":          {"XMLHttpRequest"},
-	"X-Http-Method-Override":    {"PUT", "DELETE"},
+	"Sec-Fetch-Site":                       {"same-origin", "cross-site", "same-site", "none"},
+	"Sec-Fetch-Mode":                       {"cors", "no-cors", "navigate", "same-origin", "websocket"},
+	"Sec-Fetch-Dest":                       {"empty", "document", "script"},
+	"Sec-Fetch-User":                       {"?1"},
+	"Sec-Purpose":                          {"prefetch"},
+	"Sec-Gpc":                              {"1"},
+	"Cookie":                               {"sid=42", ""},
+	"Authorization":                        {"Bearer x", "Basic dTpw"},
+	"Proxy-Authorization":                  {"Basic dTpw"},
+	"Referer":                              {"https://example.com/", "https://attacker.example/"},
+	"Host":                                 {"example.com", "localhost:8080"},
+	"X-Forwarded-Host":                     {"example.com"},
+	"X-Forwarded-Proto":                    {"https", "http"},
+	"X-Forwarded-For":                      {"127.0.0.1", "10.0.0.1"},
+	"Forwarded":                            {"for=127.0.0.1;proto=https"},
+	"Via":                                  {"1.1 proxy"},
+	"Connection":                           {"keep-alive", "close", "Upgrade"},
+	"Upgrade":                              {"websocket"},
+	"Upgrade-Insecure-Requests":            {"1"},
+	"Content-Length":                       {"0", "17"},
+	"Content-Type":                         {"application/json", "text/plain"},
+	"Accept":                               {"*/*"},
+	"Accept-Encoding":                      {"gzip"},
+	"Cache-Control":                        {"no-cache", "max-age=0"},
+	"Pragma":                               {"no-cache"},
+	"If-None-Match":                        {"\"abc\""},
+	"User-Agent":                           {"Mozilla/5.0", "curl/8"},
+	"Dnt":                                  {"1"},
+	"Te":                                   {"trailers"},
+	"Priority":                             {"u=1, i"},
+	"X-Requested-With":                     {"XMLHttpRequest"},
+	"X-Http-Method-Override":               {"PUT", "DELETE"},
 	"Access-Control-Request-Local-Network": {"true"},
 	"Access-Control-Allow-Origin":          {"*"},
 	"Purpose":                              {"prefetch"},
